@@ -9,7 +9,6 @@ import scipy.sparse as sps
 from harness.common import frac, err_kind, deep_compare
 
 PID = "C36"
-DISABLED = True
 THEOREMS = [
     "PorepyVerif.C36.slice_vec_eq_matmul",
     "PorepyVerif.C36.slice_rows_eq_matmul",
@@ -21,6 +20,7 @@ THEOREMS = [
     "PorepyVerif.C36.transpose_is_PT",
     "PorepyVerif.C36.transpose_chain",
     "PorepyVerif.C36.chain_eq_product",
+    "PorepyVerif.C36.chain_eq_product_vec",
     "PorepyVerif.C36.pending_eq",
     "PorepyVerif.C36.slicer_eq_spec",
     "PorepyVerif.C36.run_eq_specRun",
@@ -32,7 +32,7 @@ THEOREMS = [
 LEAN_MODULES = ["PorepyVerif.C36.Props"]
 AUDIT = "PorepyVerif/C36/Audit.lean"
 DRIVER = "PorepyVerif/C36/Driver.lean"
-N = {"quick": 400, "thorough": 8000}
+N = {"quick": 400, "thorough": 25000}
 RULE = ("programs of 2-12 statements over slicer variables: ArraySlicer(...) with random index sets (restrictions with/without explicit "
         "range_size = onto / scatter path, prolongations, injections with both index lists, permutations; explicit or implied sizes; "
         "empty index lists; a few repeated domain indices), S.T, S.copy(), a∘S for a number / 1-d array / sparse matrix and ∘ in + - * / ** @, "
@@ -480,12 +480,48 @@ def _raw_unknown(o):
     return False
 
 
+def _tainted(case):
+    """Variables built through a defect site of the two known findings (a reverse operation / chaining / .T applied to
+    a slicer that already carries a pending operation): there the model follows the property, not the present code."""
+    pend, taint = {}, {}
+    for st in case["stmts"]:
+        op = st["op"]
+        try:
+            if op == "new":
+                pend[st["i"]], taint[st["i"]] = False, False
+            elif op == "copy":
+                pend[st["i"]], taint[st["i"]] = pend[st["j"]], taint[st["j"]]
+            elif op == "T":
+                pend[st["i"]], taint[st["i"]] = pend[st["j"]], taint[st["j"]] or pend[st["j"]]
+            elif op == "rop":
+                pend[st["i"]], taint[st["i"]] = True, taint[st["j"]] or pend[st["j"]]
+            elif op == "chain":
+                pend[st["i"]], taint[st["i"]] = True, taint[st["j"]] or taint[st["k"]] or pend[st["k"]]
+        except KeyError:
+            pass
+    return {i for i, t in taint.items() if t}
+
+
 def compare(impl, model, case):
     if isinstance(impl, dict) and "harness_exc" in impl:
         return "harness exception in impl_run: " + impl["harness_exc"]
     tol = 1e-9 if any(st.get("sym") in ("/", "**") for st in case["stmts"]) else None
     if len(impl) != len(model):
         return f"length {len(impl)} vs {len(model)}"
+    bad = _tainted(case)
+    if bad and _compare_lists(impl, model, tol) is None:
+        bad = set()  # the present code agrees with the property here (finding repaired, or not exercised)
+    if bad:
+        impl, model = list(impl), list(model)
+        for k, st in enumerate(case["stmts"]):
+            if st.get("i" if st["op"] != "apply" else "j") in bad:
+                impl[k] = model[k] = "skipped: built through a known-finding site"
+        impl[-1] = [d for d in impl[-1] if d["i"] not in bad]
+        model[-1] = [d for d in model[-1] if d["i"] not in bad] if isinstance(model[-1], list) else model[-1]
+    return _compare_lists(impl, model, tol)
+
+
+def _compare_lists(impl, model, tol):
     for k, (a, b) in enumerate(zip(impl, model)):
         if _raw_unknown(b):  # storage layout after scipy arithmetic is not modelled: compare the dense content only
             a, b = _drop_raw(a), _drop_raw(b)
@@ -584,13 +620,16 @@ def oracle(case):
             return None
         cls = f"{type(yobj).__name__}:{_describe(ref[i])}"
         if sites.get(i):
+            asis = asis_err = None
             try:
                 asis = _ref_apply(now[i], yobj)
-                if got_err is None and _same(got, asis, tol):
-                    key = min(sites[i])[1]
-                    return {"what": f"{where}: slicer v{i} ({_describe(ref[i])}) applied to {type(yobj).__name__} acts as {_describe(now[i])}: {key}", "key": key}
-            except Exception:
-                pass
+            except _Expected as e:
+                asis_err = e.kind
+            except Exception as e:
+                asis_err = type(e).__name__
+            if (asis_err == got_err) if (asis_err or got_err) else _same(got, asis, tol):
+                key = min(sites[i])[1]
+                return {"what": f"{where}: slicer v{i} ({_describe(ref[i])}) applied to {type(yobj).__name__} acts as {_describe(now[i])}: {key}", "key": key}
         g = got_err if got_err else _short(got)
         w = exp_err if exp_err else _short(want)
         return {"what": f"{where}: slicer v{i} applied to {type(yobj).__name__}: got {g}, explicit projection matrices give {w}", "key": "wrong-result:" + cls}
